@@ -59,7 +59,8 @@ func sizes(ctx *core.Ctx) []int {
 	}
 	rng := ctx.Rand("sizes")
 	if ctx.Thorough() {
-		for _, n := range []int{3, 62, 66, 191, 192, 193, 8191, 8192, 8193, 8256} {
+		// 12161..12224 (2*64+63 leaves): the smallest sizes whose tail holds 65 nodes when collapse starts
+		for _, n := range []int{3, 62, 66, 191, 192, 193, 8191, 8192, 8193, 8256, 12161, 12224, 12225} {
 			set[n] = true
 		}
 		for i := 0; i < 6; i++ {
@@ -96,10 +97,18 @@ func run(ctx *core.Ctx) error {
 	ctx.Ev.Assume("writer and readers use keys only through comparisons, so the exhaustive small-F model with abstract keys covers all key sets up to order isomorphism; " +
 		"the fan-out constant itself (64) is only exercised on the real code and in the F=64 evaluations")
 
-	// 1. exhaustive design models
-	if err := designModels(ctx); err != nil {
-		return err
+	// 1. exhaustive design models (run alongside the execution of the case table)
+	mcErr := make(chan error, 1)
+	go func() { mcErr <- designModels(ctx) }()
+	mcDone := false
+	waitMC := func() error {
+		if mcDone {
+			return nil
+		}
+		mcDone = true
+		return <-mcErr
 	}
+	defer waitMC()
 
 	// 2. P-C: the case table at the real fan-out
 	szs := sizes(ctx)
@@ -163,7 +172,7 @@ func run(ctx *core.Ctx) error {
 			ctx.Logf("note: %s: the tree's shape differs from the model's prediction (not demanded by the property)", ob.Spec.id())
 		}
 		unrealGaps += ob.Unreal
-		realGaps += len(ob.Union) - len(ob.Written)
+		realGaps += ob.Absent
 		ctx.Ev.Eval(ob.Evals)
 		if ob.Spec.N > realF || ob.Spec.Bad != "" {
 			ctx.Ev.Distinct(ob.Spec.id())
@@ -181,6 +190,10 @@ func run(ctx *core.Ctx) error {
 	ctx.Ev.Set("sizes", szs)
 	ctx.Logf("case table: %d lines -> %d concrete cases executed (%d without concrete counterpart), %d table suspects, %d shape differences",
 		len(table), len(recs), unrealCases, len(suspects), drift)
+
+	if err := waitMC(); err != nil {
+		return err
+	}
 
 	// 4. P-D: TLC judges every record
 	bad, why, err := judge(ctx, recs)
@@ -222,33 +235,20 @@ func run(ctx *core.Ctx) error {
 
 // designModels runs MC_KeyTree for the small fan-outs.
 func designModels(ctx *core.Ctx) error {
-	type mc struct {
-		cfg  string
-		text string
-		note string
-	}
-	mk := func(f, maxN int, steps string) string {
-		props := ""
-		if steps == "{2}" {
-			props = "PROPERTIES Terminates\n"
-		}
-		return fmt.Sprintf("SPECIFICATION Spec\nCONSTANTS F = %d\n Variant = \"asCoded\"\n Steps = %s\n MaxN = %d\n"+
-			"INVARIANTS Valid Faithful FaithfulAnyReader Enumerates ReadersAgree EmptyNoTree RejectsExactly MachineIsFunction TailShape NothingLost TailValid Bounded CapIsDead RootDepthPositive\n%sCHECK_DEADLOCK FALSE\n",
-			f, steps, maxN, props)
-	}
+	type mc struct{ cfg, note string }
 	runs := []mc{
-		{cfg: "MC_KeyTree_F2.cfg", note: "F=2 N<=16"},
-		{cfg: "MC_KeyTree_F3.cfg", note: "F=3 N<=41"},
-		{cfg: "MC_KeyTree_F4.cfg", note: "F=4 N<=86"},
-		{cfg: "MC_KeyTree_gaps.cfg", note: "F=2 N<=11, gaps of 1 or 2 absent keys"},
+		{"MC_KeyTree_F2.cfg", "F=2 N<=16"},
+		{"MC_KeyTree_F3.cfg", "F=3 N<=41"},
+		{"MC_KeyTree_F4.cfg", "F=4 N<=86"},
+		{"MC_KeyTree_gaps.cfg", "F=2 N<=11, one or two absent keys between neighbours"},
 	}
 	if ctx.Thorough() {
 		runs = append(runs,
-			mc{text: mk(5, 5*5*5+5*5+5+2, "{2}"), note: "F=5 N<=157"},
-			mc{text: mk(6, 6*6*6+6*6+6+2, "{2}"), note: "F=6 N<=260"},
-			mc{text: mk(8, 8*8*8+8*8+8+2, "{2}"), note: "F=8 N<=586"},
-			mc{text: mk(2, 15, "{2, 4}"), note: "F=2 N<=15, gaps"},
-			mc{text: mk(3, 14, "{2, 4}"), note: "F=3 N<=14, gaps"},
+			mc{"MC_KeyTree_F5.cfg", "F=5 N<=157"},
+			mc{"MC_KeyTree_F6.cfg", "F=6 N<=260"},
+			mc{"MC_KeyTree_F8.cfg", "F=8 N<=586"},
+			mc{"MC_KeyTree_gaps2.cfg", "F=2 N<=16, gaps"},
+			mc{"MC_KeyTree_gaps3.cfg", "F=3 N<=14, gaps"},
 		)
 	}
 	var wg sync.WaitGroup
@@ -260,7 +260,7 @@ func designModels(ctx *core.Ctx) error {
 		go func(i int, r mc) {
 			defer wg.Done()
 			defer func() { <-sem }()
-			_, errs[i] = ctx.MustHold(core.TLCOpts{Dir: "tree", Module: "MC_KeyTree", Cfg: r.cfg, CfgText: r.text, Workers: 4,
+			_, errs[i] = ctx.MustHold(core.TLCOpts{Dir: "tree", Module: "MC_KeyTree", Cfg: r.cfg, Workers: 4,
 				XssMB: 512, Constants: r.note, Timeout: ctx.Dur(5, 20)})
 		}(i, r)
 	}
@@ -351,33 +351,36 @@ func concretisations(ctx *core.Ctx, gi int, gc genCase) (out []spec) {
 		}
 		return out
 	}
-	big := gc.N > 1000
-	defer func() {
-		// quick tier: big trees are probed at the leaf boundaries and by sample,
-		// except the size just above 64^2, which is probed completely
-		if big && !ctx.Thorough() && gc.N != realF*realF+1 {
-			for i := range out {
-				out[i].Probe = "edges"
-			}
-		}
-	}()
+	big, huge := gc.N > 1000, gc.N > 5000
 	for si := 0; si < 4; si++ {
-		if big && !ctx.Thorough() && si != rot%4 && si != (rot+1)%4 {
-			continue // quick tier: two styles per tree kind for the big sizes, rotating with the seed
-		}
-		api := "Write"
+		api, other := "Write", "WriteMap"
 		if (si+rot)%2 == 0 {
-			api = "WriteMap"
+			api, other = other, api
 		}
-		out = append(out, spec{API: api, Style: nameStyles[si], N: gc.N, Seed: ctx.Seed, Per: per})
-		if !big || ctx.Thorough() {
-			other := "Write"
-			if api == "Write" {
-				other = "WriteMap"
+		both, probe := true, ""
+		switch {
+		case big && !ctx.Thorough():
+			// quick tier, big trees: two key styles per tree kind (rotating with the seed), one API
+			// each; Lookup at the leaf boundaries and by sample, except for the size just above 64^2
+			if si != rot%4 && si != (rot+1)%4 {
+				continue
 			}
-			out = append(out, spec{API: other, Style: nameStyles[si], N: gc.N, Seed: ctx.Seed, Per: per})
+			both = false
+			if gc.N != realF*realF+1 {
+				probe = "edges"
+			}
+		case huge:
+			// thorough tier, more than 5000 keys: every style, one API each; one style probed completely
+			both = false
+			if si != rot%4 {
+				probe = "edges"
+			}
 		}
-		out = append(out, spec{Num: true, API: "Write", Style: numStyles[si], N: gc.N, Seed: ctx.Seed, Per: per})
+		out = append(out, spec{API: api, Style: nameStyles[si], N: gc.N, Seed: ctx.Seed, Per: per, Probe: probe})
+		if both {
+			out = append(out, spec{API: other, Style: nameStyles[si], N: gc.N, Seed: ctx.Seed, Per: per, Probe: probe})
+		}
+		out = append(out, spec{Num: true, API: "Write", Style: numStyles[si], N: gc.N, Seed: ctx.Seed, Per: per, Probe: probe})
 	}
 	return out
 }
